@@ -98,7 +98,7 @@ class CompiledView:
         f2 = model.func("partition_runner.make_update_inputs")
         ev2 = SymEval(model)
         r2 = ev2.run_function(f2)
-        if r2.ret[0] != "closure":
+        if r2.ret[0] not in ("closure", "obj"):
             raise AnalysisError("make_update_inputs does not return a closure")
         n0 = len(ev2.events)
         ret = ev2.invoke(r2.ret, [S("graph_state"), S("timings_node")], r2.frame)
@@ -107,7 +107,7 @@ class CompiledView:
         f3 = model.func("partition_runner.make_update_state")
         ev3 = SymEval(model, inline=("update_output", "get_buffer_size"))
         r3 = ev3.run_function(f3)
-        if r3.ret[0] != "closure":
+        if r3.ret[0] not in ("closure", "obj"):  # (a closure, or an instance of a small callable class standing in for one)
             raise AnalysisError("make_update_state does not return a closure")
         n0 = len(ev3.events)
         ret = ev3.invoke(r3.ret, [S("graph_state"), S("timing"), S("step_state"), S("output"), S("output_record")], r3.frame)
